@@ -1382,16 +1382,16 @@ func mutationProperty(t *testing.T, f format, quickN, thoroughN int) {
 }
 
 // budgets = rapid cases (each runs the seed through one entry point and the mutant through every entry point of the format)
-func TestMutatePolicyText(t *testing.T)    { mutationProperty(t, fPolicyText, 1000, 100000) }
-func TestMutatePolicyJSON(t *testing.T)    { mutationProperty(t, fPolicyJSON, 1600, 100000) }
-func TestMutatePolicySetJSON(t *testing.T) { mutationProperty(t, fPolicySetJSON, 800, 50000) }
-func TestMutateEntityJSON(t *testing.T)    { mutationProperty(t, fEntityJSON, 1200, 70000) }
-func TestMutateEntityMapJSON(t *testing.T) { mutationProperty(t, fEntityMapJSON, 1000, 50000) }
-func TestMutateValueJSON(t *testing.T)     { mutationProperty(t, fValueJSON, 1600, 100000) }
-func TestMutateRequestJSON(t *testing.T)   { mutationProperty(t, fRequestJSON, 1000, 50000) }
-func TestMutateUIDText(t *testing.T)       { mutationProperty(t, fUIDText, 1000, 50000) }
-func TestMutateSchemaText(t *testing.T)    { mutationProperty(t, fSchemaText, 1600, 70000) }
-func TestMutateSchemaJSON(t *testing.T)    { mutationProperty(t, fSchemaJSON, 800, 70000) }
+func TestMutatePolicyText(t *testing.T)    { mutationProperty(t, fPolicyText, 1000, 60000) }
+func TestMutatePolicyJSON(t *testing.T)    { mutationProperty(t, fPolicyJSON, 1600, 60000) }
+func TestMutatePolicySetJSON(t *testing.T) { mutationProperty(t, fPolicySetJSON, 800, 30000) }
+func TestMutateEntityJSON(t *testing.T)    { mutationProperty(t, fEntityJSON, 1200, 40000) }
+func TestMutateEntityMapJSON(t *testing.T) { mutationProperty(t, fEntityMapJSON, 1000, 30000) }
+func TestMutateValueJSON(t *testing.T)     { mutationProperty(t, fValueJSON, 1600, 60000) }
+func TestMutateRequestJSON(t *testing.T)   { mutationProperty(t, fRequestJSON, 1000, 30000) }
+func TestMutateUIDText(t *testing.T)       { mutationProperty(t, fUIDText, 1000, 30000) }
+func TestMutateSchemaText(t *testing.T)    { mutationProperty(t, fSchemaText, 1600, 40000) }
+func TestMutateSchemaJSON(t *testing.T)    { mutationProperty(t, fSchemaJSON, 800, 40000) }
 
 // ---------------------------------------------------------------------------------------------
 // (b) depth / size ladder
